@@ -796,21 +796,26 @@ def check_e2e(ctx, case):  # noqa: C901, PLR0912, PLR0915
             if got.get(datum, 0) == expected.get(datum, 0):
                 continue
             group = [i for i, c in enumerate(calls) if c[3] == datum]
-            direction = "missing_mark" if got.get(datum, 0) < expected.get(datum, 0) else "extra_mark"
-            cause = "ambiguous_group"
-            if len(group) == 1:
-                i = group[0]
+            where = " AND ".join(f"{show_stack(pure_stacks[i])} (reference={verdicts[i]})" for i in group)
+            what = (f"{show(expr)} [{mode}, chain={chain}, via={via}]: marker calls={got.get(datum, 0)} expected="
+                    f"{expected.get(datum, 0)} for the datum at {where}")
+            culprit = None
+            for i in group:  # does the checker itself (outside any retort) already disagree on the real stack?
                 direct = bool(make_checker_world(expr, world).check_loc_stack(MED, H.LocStack(*calls[i][2])))
                 if direct != verdicts[i]:
-                    le, ls = localize_world(expr, pure_stacks[i], world)
-                    cause = "checker:" + H.node_sig(le, ls)
-                else:
-                    cause = "retort_level"
-            ctx.violation(
-                "e2e_marks_differ", (mode, f"chain_{chain}", f"via_{via}", direction, cause), small,
-                f"{show(expr)} [{mode}, chain={chain}, via={via}]: marker calls={got.get(datum, 0)} expected="
-                f"{expected.get(datum, 0)} for the datum at " +
-                " AND ".join(f"{show_stack(pure_stacks[i])} (reference={verdicts[i]})" for i in group))
+                    culprit = i
+                    break
+            if culprit is not None:
+                le, ls = H.localize(expr, pure_stacks[culprit], world)
+                lr = compile_ref(le)(tup(ls))
+                if lr is None:
+                    le, ls, lr = expr, pure_stacks[culprit], verdicts[culprit]
+                ctx.violation("checker_mismatch", (H.node_sig(le, ls), "expected_match" if lr else "expected_nomatch"),
+                              {"kind": "pure", "expr": le, "stacks": [ls]},
+                              f"{show(le)}  on  {show_stack(ls)}: reference={lr} adaptix={not lr}   (seen end to "
+                              f"end: {what})")
+            else:
+                ctx.violation("e2e_marks_differ", (f"via_{via}", "retort_level"), small, what)
             break
 
 
